@@ -297,6 +297,7 @@ class Evaluator:
                 kind, val = r
                 if kind == "ret":
                     self.stores = env.get("__stores", {})
+                    self.mem = env.get("__mem", {})
                     return val
                 if kind == "br":
                     prev, cur = cur, val
@@ -420,8 +421,14 @@ class Evaluator:
         if op == "switch":
             mm = re.match(r"^switch (\w+) (\S+), label (\S+) \[(.*)\]$", rhs)
             v = self.val(mm.group(2), env)
-            if not (isinstance(v, Poly) and v.is_const()):
+            if not isinstance(v, Poly):
                 raise Inconclusive("switch on a value that is not fixed by the case (%r) in %s" % (v, fname))
+            if not v.is_const():
+                # every listed constant is excluded by the case's sign assumptions: the default label is taken
+                for cm in re.finditer(r"\w+ (-?\d+), label (\S+)", mm.group(4)):
+                    if sign(v - int(cm.group(1)), signs) not in (POS, NEG, NONZERO):
+                        raise Inconclusive("switch on a value that is not fixed by the case (%r) in %s" % (v, fname))
+                return ("br", mm.group(3))
             for cm in re.finditer(r"\w+ (-?\d+), label (\S+)", mm.group(4)):
                 if int(cm.group(1)) == int(v.const_value()):
                     return ("br", cm.group(2))
@@ -510,7 +517,11 @@ class Evaluator:
                 v, n = self.val(argv[1], env), self.val(argv[2], env)
                 off = p - Poly.sym("out")
                 if any(sy.startswith("stack") for sy in p.symbols()):
-                    return None               # zero-fill of a stack temporary (floating point data): not part of the index algebra
+                    # zero-fill of a stack temporary (usually a floating point scalar passed by address): the words read as zero
+                    if v.is_const() and v.const_value() == 0 and n.is_const() and int(n.const_value()) % 8 == 0 and int(n.const_value()) <= 256:
+                        for k in range(0, int(n.const_value()), 8):
+                            env.setdefault("__stack", {})[p + k] = Poly.const(0)
+                    return None
                 if not (off.is_const() and v.is_const() and v.const_value() == 0 and n.is_const()):
                     raise Inconclusive("memset that is not a constant zero fill of the out array")
                 o, n = int(off.const_value()), int(n.const_value())
@@ -605,6 +616,8 @@ class Evaluator:
                 return None
             if isinstance(v, Poly) and isinstance(p, Poly) and any(sy.startswith("stack") for sy in p.symbols()):
                 env.setdefault("__stack", {})[p] = v
+            elif isinstance(v, Poly) and isinstance(p, Poly):
+                env.setdefault("__mem", {})[p] = v          # a floating point result written through a caller-provided pointer (recorded, not interpreted)
             return None
         if op == "store" and not re.match(r"^store (?:volatile )?i64 ", rhs):
             return None      # other non-integer data: not part of the index algebra
